@@ -21,3 +21,24 @@ func init() {
 		[]string{"xmath.SaturatedAdd saturates (checked by C12.satfn)", "calculators are pure with respect to the cache"},
 		ruleC12Hooks, ruleC12Sites, ruleC12Bound, ruleC12Apply)
 }
+
+func init() {
+	register("C08",
+		"Decides the code-shape obligations of single-flight loading on every path: a call record is created only inside the in-flight table's computation when none exists (C08.getorcreate); doCall/doBulkCall register, before invoking the loader, a deferred recover that finishes the record(s) (C08.finish); the finish callback clears the record if it is still its own and releases the waiters exactly once after the table computation (C08.release); every record obtained with shouldLoad is dispatched exactly once before any wait and records obtained without it are only waited on (C08.dispatch). "+
+			"NOT decided: non-overlap of loader invocations in time and termination under all interleavings.",
+		[]string{"sync.WaitGroup semantics", "the executor runs submitted closures"},
+		ruleLoadLemma, ruleLoadOps, ruleBulkOps, ruleC10TableC10, ruleC08GetOrCreate, ruleC08Finish, ruleC10Inv)
+}
+
+func init() {
+	register("C10",
+		"Decides the structural clauses of 'load outcomes map to cache state and results as documented' on every enumerated path: the load installer's decision table over (own record, not-found, error) (C10.table); the record invariants of doCall/doBulkCall - a not-found mark always comes with the not-found error, an overwritten error resets the mark, volunteered keys are registered before the error epilogue (C10.inv); a record's value reaches an API result only after wait and under err == nil, hits insert the live node's value under the looked-up key, misses return (record.value, record.err) (C10.result); BulkGet dispatches at most once, only its own records, duplicates skipped before the lookup (C10.once). "+
+			"NOT decided: exact result maps for arbitrary loader shapes beyond these guards.",
+		[]string{"loaders are opaque user functions", "in-flight table atomicity (C15)"},
+		ruleC10TableC10, ruleC10Inv, ruleLoadLemma, ruleLoadOps, ruleBulkOps, ruleC08Finish)
+	register("C11",
+		"Decides the structural clauses of refresh on every enumerated path: a hit returns the value cached at that moment and never loads inline (C11.old); a reload is scheduled only on the not-fresh edge and only inside an executor closure (C11.trigger); Reload gets the old value, Load is used for absent keys (C11.reloadarg); without refresh configured nothing is returned or scheduled, a manual refresh returns a capacity-1 channel and sends exactly one result on every non-panicking path, automatic refreshes send nothing (C11.chan); a failed reload keeps the entry and its expiry, a not-found reload of its own record removes it, a successful own reload installs (C10.table, C12.hook failure rows). "+
+			"NOT decided: timing around the deadline and behaviour of asynchronous executors; one genuine defect is a known finding (bulk refresh leaves records in flight when a loader panic is re-raised).",
+		[]string{"the executor runs submitted closures", "loaders are opaque user functions"},
+		ruleLoadLemma, ruleLoadOps, ruleBulkOps, ruleC11ReloadArg, ruleC10TableC10, ruleC12Hooks)
+}
